@@ -691,4 +691,315 @@ theorem buildEdge_leaves {V} : ∀ (fuel n : Nat) (src : List (Bits × V)) (t : 
               apply List.Perm.map
               exact ((pl.map _).append (pr.map _)).trans hperm.symm
 
+/-- every leaf key of a sized tree has n bits -/
+theorem Sized_len {V} (t : Edge V) : ∀ n, Edge.Sized t n → ∀ kv ∈ Edge.leaves t, kv.1.length = n := by
+  induction t with
+  | leaf s v => intro n h kv hkv; simp [Edge.leaves] at hkv; subst hkv; exact h
+  | fork s l r ihl ihr =>
+    intro n ⟨m, hn, hl, hr⟩ kv hkv
+    simp only [Edge.leaves, List.mem_append, List.mem_map] at hkv
+    rcases hkv with ⟨a, ha, rfl⟩ | ⟨a, ha, rfl⟩
+    · have := ihl m hl a ha; simp [pre, this]; omega
+    · have := ihr m hr a ha; simp [pre, this]; omega
+
+/-- leaves come out in strictly ascending key order -/
+theorem Sized_sorted {V} (t : Edge V) : ∀ n, Edge.Sized t n →
+    (Edge.leaves t).Pairwise (fun a b => natOfBits a.1 < natOfBits b.1) := by
+  induction t with
+  | leaf s v => intro n _; simp [Edge.leaves]
+  | fork s l r ihl ihr =>
+    intro n ⟨m, hn, hl, hr⟩
+    simp only [Edge.leaves]
+    rw [List.pairwise_append]
+    refine ⟨?_, ?_, ?_⟩
+    · rw [List.pairwise_map]
+      refine (ihl m hl).imp_of_mem ?_
+      intro a b ha hb hab
+      have la := Sized_len l m hl a ha
+      have lb := Sized_len l m hl b hb
+      simp only [pre, natOfBits_append, la, lb]
+      omega
+    · rw [List.pairwise_map]
+      refine (ihr m hr).imp_of_mem ?_
+      intro a b ha hb hab
+      have la := Sized_len r m hr a ha
+      have lb := Sized_len r m hr b hb
+      simp only [pre, natOfBits_append, la, lb]
+      omega
+    · intro a ha b hb
+      simp only [List.mem_map] at ha hb
+      obtain ⟨a', ha', rfl⟩ := ha
+      obtain ⟨b', hb', rfl⟩ := hb
+      have la := Sized_len l m hl a' ha'
+      have lb := Sized_len r m hr b' hb'
+      have h1 := natOfBits_lt a'.1
+      simp only [pre, natOfBits_append, la, lb, natOfBits_cons, natOfBits_nil, List.length_cons, List.length_nil] at h1 ⊢
+      simp only [Bool.false_eq_true, if_false, if_true, Nat.zero_mul, Nat.zero_add, Nat.add_zero, Nat.pow_zero, Nat.mul_one, Nat.pow_one]
+      generalize natOfBits s * 2 = x
+      have : (x + 1) * 2 ^ m = x * 2 ^ m + 2 ^ m := by rw [Nat.add_mul]; simp
+      omega
+
+/-! ### the HashMap.map dict -/
+/-- invariant of `HashMap.map` under `set_int_key`: distinct keys, all below 2^n -/
+def DictOK {V} (n : Nat) (d : Dict V) : Prop := (d.map Prod.fst).Nodup ∧ ∀ kv ∈ d, kv.1 < 2 ^ n
+
+theorem dictSet_new {V} (k : Nat) (v : V) (d : Dict V) (h : k ∉ d.map Prod.fst) : dictSet k v d = d ++ [(k, v)] := by
+  induction d with
+  | nil => simp [dictSet]
+  | cons a d ih =>
+    obtain ⟨k', v'⟩ := a
+    simp only [List.map_cons, List.mem_cons, not_or] at h
+    have : ¬ k' = k := fun e => h.1 e.symm
+    simp [dictSet, this, ih h.2]
+
+theorem dictSet_keys_old {V} (k : Nat) (v : V) (d : Dict V) (h : k ∈ d.map Prod.fst) :
+    (dictSet k v d).map Prod.fst = d.map Prod.fst := by
+  induction d with
+  | nil => simp at h
+  | cons a d ih =>
+    obtain ⟨k', v'⟩ := a
+    by_cases e : k' = k
+    · simp [dictSet, e]
+    · simp only [List.map_cons, List.mem_cons] at h
+      have : k ∈ d.map Prod.fst := by
+        rcases h with h | h
+        · exact absurd h.symm e
+        · exact h
+      simp [dictSet, e, ih this]
+
+theorem dictSet_mem {V} (k : Nat) (v : V) (d : Dict V) : ∀ kv ∈ dictSet k v d, kv ∈ d ∨ kv = (k, v) := by
+  induction d with
+  | nil => simp [dictSet]
+  | cons a d ih =>
+    obtain ⟨k', v'⟩ := a
+    intro kv hkv
+    by_cases e : k' = k
+    · simp only [dictSet, e, if_true, List.mem_cons] at hkv
+      rcases hkv with h | h
+      · right; simp [h]
+      · left; simp [h]
+    · simp only [dictSet, e, if_false, List.mem_cons] at hkv
+      rcases hkv with h | h
+      · left; simp [h]
+      · rcases ih kv h with h | h
+        · left; simp [h]
+        · right; exact h
+
+theorem dictSet_ok {V} (n k : Nat) (v : V) (d : Dict V) (hd : DictOK n d) (hk : k < 2 ^ n) : DictOK n (dictSet k v d) := by
+  constructor
+  · by_cases h : k ∈ d.map Prod.fst
+    · rw [dictSet_keys_old k v d h]; exact hd.1
+    · rw [dictSet_new k v d h, List.map_append, List.nodup_append]
+      refine ⟨hd.1, by simp, ?_⟩
+      intro a ha b hb
+      simp at hb; subst hb
+      intro e; subst e; exact h ha
+  · intro kv hkv
+    rcases dictSet_mem k v d kv hkv with h | h
+    · exact hd.2 kv h
+    · subst h; exact hk
+
+theorem setIntKey_ok {V} (n : Nat) (k : Int) (v : V) (d d' : Dict V) (hd : DictOK n d) (h : setIntKey n k v d = some d') :
+    DictOK n d' := by
+  unfold setIntKey at h
+  split at h
+  · simp at h
+  · rename_i hc
+    simp at h; subst h
+    apply dictSet_ok n _ v d hd
+    have : bitLength k.natAbs ≤ n := by omega
+    rw [bitLength_le_iff] at this
+    omega
+
+theorem setAll_ok {V} (n : Nat) (ins : List (Int × V)) : ∀ (d d' : Dict V), DictOK n d → setAll n ins d = some d' → DictOK n d' := by
+  induction ins with
+  | nil => intro d d' hd h; simp [setAll] at h; subst h; exact hd
+  | cons a ins ih =>
+    intro d d' hd h
+    obtain ⟨k, v⟩ := a
+    simp only [setAll] at h
+    cases h1 : setIntKey n k v d with
+    | none => simp [h1] at h
+    | some d1 =>
+      simp [h1] at h
+      exact ih d1 d' (setIntKey_ok n k v d d1 hd h1) h
+
+theorem dictGet_dictSet {V} (k k' : Nat) (v : V) (d : Dict V) :
+    dictGet k (dictSet k' v d) = if k = k' then some v else dictGet k d := by
+  induction d with
+  | nil => simp only [dictSet, dictGet]; by_cases e : k' = k <;> simp [e] <;> omega
+  | cons a d ih =>
+    obtain ⟨k2, v2⟩ := a
+    by_cases e : k2 = k'
+    · subst e
+      by_cases e2 : k2 = k
+      · simp [dictSet, dictGet, e2]
+      · have : ¬ k = k2 := fun h => e2 h.symm
+        simp [dictSet, dictGet, e2, this]
+    · by_cases e2 : k2 = k
+      · subst e2; simp [dictSet, dictGet, e]
+      · simp [dictSet, dictGet, e, e2, ih]
+
+theorem dictGet_mem {V} (d : Dict V) (h : (d.map Prod.fst).Nodup) (k : Nat) (v : V) : (k, v) ∈ d ↔ dictGet k d = some v := by
+  induction d with
+  | nil => simp [dictGet]
+  | cons a d ih =>
+    obtain ⟨k2, v2⟩ := a
+    simp only [List.map_cons, List.nodup_cons] at h
+    by_cases e : k2 = k
+    · subst e
+      simp only [dictGet, if_true, List.mem_cons, Prod.mk.injEq, true_and, Option.some.injEq]
+      constructor
+      · rintro (h1 | h1)
+        · exact h1.symm
+        · exact absurd (List.mem_map_of_mem (f := Prod.fst) h1) h.1
+      · intro h1; left; exact h1.symm
+    · have : ¬ k = k2 := fun h => e h.symm
+      simp [dictGet, e, this, ih h.2]
+
+/-- value last written for key `k` by a sequence of `set_int_key` calls -/
+def lastWrite {V} (ins : List (Int × V)) (k : Nat) : Option V :=
+  (ins.reverse.find? (fun p => p.1 = (k : Int))).map (·.2)
+
+theorem dictGet_setAll {V} (n : Nat) (ins : List (Int × V)) : ∀ (d d' : Dict V), setAll n ins d = some d' →
+    ∀ k, dictGet k d' = (lastWrite ins k).or (dictGet k d) := by
+  induction ins with
+  | nil => intro d d' h k; simp [setAll] at h; subst h; simp [lastWrite]
+  | cons a ins ih =>
+    intro d d' h k
+    obtain ⟨kk, v⟩ := a
+    simp only [setAll] at h
+    cases h1 : setIntKey n kk v d with
+    | none => simp [h1] at h
+    | some d1 =>
+      simp [h1] at h
+      rw [ih d1 d' h k]
+      unfold setIntKey at h1
+      split at h1
+      · simp at h1
+      · rename_i hc
+        simp at h1; subst h1
+        rw [dictGet_dictSet]
+        simp only [lastWrite, List.reverse_cons, List.find?_append]
+        cases hf : List.find? (fun p => decide (p.1 = (k : Int))) ins.reverse with
+        | some x => simp
+        | none =>
+          simp only [Option.none_or, Option.map_none, List.find?_cons, List.find?_nil]
+          by_cases e : kk = (k : Int)
+          · have h2 : k = kk.toNat := by omega
+            rw [if_pos h2]; simp [e]
+          · have h2 : ¬ k = kk.toNat := by omega
+            rw [if_neg h2]; simp [e]
+
+/-! ### serialize -/
+theorem valid_ordinary {ok n c kv} (h : ValidHMK ok false n c kv) : ∃ b r, c = .mk (-1) b r := by
+  cases h with
+  | leaf => exact ⟨_, _, rfl⟩
+  | fork => exact ⟨_, _, rfl⟩
+
+theorem valid_mono {ok ok' : Nat → Bits → LabelKind → Prop} (hmono : ∀ m s k, ok m s k → ok' m s k) {p n c kv}
+    (h : ValidHMK ok p n c kv) : ValidHMK ok' p n c kv := by
+  induction h with
+  | leaf hl hok hn => exact ValidHMK.leaf hl (hmono _ _ _ hok) hn
+  | fork hl hok hn _ _ ihl ihr => exact ValidHMK.fork hl (hmono _ _ _ hok) hn ihl ihr
+  | pruned hb => exact ValidHMK.pruned hb
+
+theorem nodup_map_on {α β} (f : α → β) (l : List α) (hinj : ∀ a ∈ l, ∀ b ∈ l, f a = f b → a = b) (h : l.Nodup) :
+    (l.map f).Nodup := by
+  unfold List.Nodup at *
+  rw [List.pairwise_map]
+  exact h.imp_of_mem (fun {a b} ha hb hab e => hab (hinj a ha b hb e))
+
+/-- what `HashMap.serialize()` returns, when it returns: the canonical tree of the map -/
+theorem serialize_canonical {V} (n : Nat) (hn : 0 < n) (ser : V → Option Val) (d : Dict V) (c : Cell)
+    (hd : DictOK n d) (h : serialize n ser d = some (some c)) :
+    ∃ kv : List (Bits × Val), Canonical n c kv ∧
+      kv.Pairwise (fun a b => natOfBits a.1 < natOfBits b.1) ∧ (∀ p ∈ kv, p.1.length = n) ∧
+      ∀ kb val, (kb, val) ∈ kv ↔ ∃ k v, (k, v) ∈ d ∧ kb = keyBits n k ∧ ser v = some val := by
+  unfold serialize at h
+  split at h
+  · simp at h
+  · simp only [Option.bind_eq_bind] at h
+    cases ht : buildTree n d with
+    | none => simp [ht] at h
+    | some t =>
+      cases hc : writeEdge ser t n with
+      | none => simp [ht, hc] at h
+      | some c' =>
+        simp [ht, hc] at h
+        subst h
+        unfold buildTree at ht
+        have hlen : ∀ kv ∈ d.map (fun kv => (keyBits n kv.1, kv.2)), kv.1.length = n := by
+          intro kv hkv
+          obtain ⟨a, ha, rfl⟩ := List.mem_map.1 hkv
+          exact keyBits_length n a.1 hn (hd.2 a ha)
+        have hnd : ((d.map (fun kv => (keyBits n kv.1, kv.2))).map Prod.fst).Nodup := by
+          rw [List.map_map]
+          have : (Prod.fst ∘ fun kv : Nat × V => (keyBits n kv.1, kv.2)) = (keyBits n) ∘ Prod.fst := by funext x; rfl
+          rw [this, ← List.map_map]
+          refine nodup_map_on _ _ ?_ hd.1
+          intro a _ b _ hab
+          have := congrArg natOfBits hab
+          simpa [natOfBits_keyBits] using this
+        obtain ⟨hsz, hperm⟩ := buildEdge_leaves (n + 1) n _ t hlen hnd ht
+        obtain ⟨kv, hvalid, hkv⟩ := writeEdge_valid ser t n c' hsz hc
+        have hfst : kv.map Prod.fst = (Edge.leaves t).map Prod.fst := by
+          have := congrArg (List.map Prod.fst) hkv
+          simpa [List.map_map, Function.comp_def, serKV, someKV] using this.symm
+        refine ⟨kv, hvalid, ?_, ?_, ?_⟩
+        · have hs := Sized_sorted t n hsz
+          have h1 : ((Edge.leaves t).map Prod.fst).Pairwise (fun a b => natOfBits a < natOfBits b) := by
+            rw [List.pairwise_map]; exact hs
+          rw [← hfst, List.pairwise_map] at h1
+          exact h1
+        · intro p hp
+          have : p.1 ∈ (Edge.leaves t).map Prod.fst := by rw [← hfst]; exact List.mem_map_of_mem (f := Prod.fst) hp
+          obtain ⟨a, ha, hae⟩ := List.mem_map.1 this
+          rw [← hae]; exact Sized_len t n hsz a ha
+        · intro kb val
+          have e1 : (kb, val) ∈ kv ↔ (kb, some val) ∈ kv.map someKV := by
+            constructor
+            · intro hm; exact List.mem_map.2 ⟨(kb, val), hm, rfl⟩
+            · intro hm
+              obtain ⟨a, ha, hae⟩ := List.mem_map.1 hm
+              obtain ⟨a1, a2⟩ := a
+              simp [someKV] at hae
+              rw [← hae.1, ← hae.2]; exact ha
+          rw [e1, ← hkv]
+          simp only [List.mem_map, serKV, Prod.mk.injEq]
+          constructor
+          · rintro ⟨a, ha, h1, h2⟩
+            have := hperm.mem_iff.1 ha
+            obtain ⟨x, hx, hxe⟩ := List.mem_map.1 this
+            refine ⟨x.1, x.2, hx, ?_, ?_⟩
+            · rw [← h1, ← hxe]
+            · rw [← h2, ← hxe]
+          · rintro ⟨k, v, hmem, rfl, hser⟩
+            refine ⟨(keyBits n k, v), ?_, rfl, hser⟩
+            exact hperm.mem_iff.2 (List.mem_map.2 ⟨(k, v), hmem, rfl⟩)
+
+theorem intKeys_sorted {V} (kv : List (Bits × V)) (h : kv.Pairwise (fun a b => natOfBits a.1 < natOfBits b.1)) :
+    intKeys kv = kv.map (fun p => (natOfBits p.1, p.2)) := by
+  unfold intKeys
+  suffices H : ∀ (acc : Dict V), (∀ a ∈ acc, ∀ b ∈ kv, a.1 < natOfBits b.1) →
+      kv.foldl (fun d p => dictSet (natOfBits p.1) p.2 d) acc = acc ++ kv.map (fun p => (natOfBits p.1, p.2)) by
+    simpa using H [] (by simp)
+  induction kv with
+  | nil => intro acc _; simp
+  | cons x kv ih =>
+    intro acc hacc
+    rw [List.pairwise_cons] at h
+    simp only [List.foldl_cons, List.map_cons]
+    have hnew : natOfBits x.1 ∉ acc.map Prod.fst := by
+      intro hm
+      obtain ⟨a, ha, hae⟩ := List.mem_map.1 hm
+      have := hacc a ha x (by simp)
+      omega
+    rw [dictSet_new _ _ _ hnew, ih h.2]
+    · simp
+    · intro a ha b hb
+      rcases List.mem_append.1 ha with ha | ha
+      · exact hacc a ha b (by simp [hb])
+      · simp at ha; subst ha; exact h.1 b hb
+
 end TonVerif.Proofs.Hashmap
